@@ -222,9 +222,10 @@ def _params(fn):
     return [x.arg for x in a.posonlyargs + a.args]
 
 
-def _summarise(w, fn, env, out, seen, depth):
-    """add the elements of `fn` (with parameter roles `env`) to the set `out`"""
-    k = (id(fn), tuple(sorted(env.items())))
+def _summarise(w, fn, env, out, seen, depth, locked=False, reached=None):
+    """add the elements of `fn` (with parameter roles `env`; `locked` = called from inside a `with <lock>:` body) to the set `out`"""
+    if reached is not None: reached.add(id(fn))
+    k = (id(fn), tuple(sorted(env.items())), locked)
     if k in seen or depth > MAX_DEPTH: return
     seen.add(k)
     local = set(_params(fn))
@@ -267,35 +268,51 @@ def _summarise(w, fn, env, out, seen, depth):
                 if kw.arg is not None:
                     r = role(kw.value)
                     if r is not None: cenv[kw.arg] = r
-        _summarise(w, d, cenv, out, seen, depth + 1)
+        _summarise(w, d, cenv, out, seen, depth + 1, lk[0], reached)
+
+    lk = [locked]
+    def emit(e):
+        out.add(e + "[locked]" if lk[0] else e)
 
     def named(name, node, call):
         """a reference to the function / method / class `name` (called through `call`, or just picked)"""
         r = role(node.value) if isinstance(node, ast.Attribute) and name in SHARED_OPS else None
         if r is not None:
-            out.add("%s@%s" % (name, r))
+            emit("%s@%s" % (name, r))
+        elif name in SHARED_OPS and not (isinstance(node, ast.Attribute) and isinstance(node.value, ast.Name)
+                                         and _params(fn)[:1] == [node.value.id]):
+            pass                  # an operation on a local object (only `self.op()` may be a method of these files)
         elif name in w.classes:
-            if call is not None: out.add("new@" + name)
+            if call is not None: emit("new@" + name)
         elif len(w.defs.get(name, ())) == 1:
             follow(name, call)
         elif name in w.defs:
-            out.add("call@" + name)
+            emit("call@" + name)
 
     def visit(n, call_of=None):
         if isinstance(n, (ast.FunctionDef, ast.AsyncFunctionDef, ast.ClassDef, ast.Lambda)) and n is not fn:
             return
         if isinstance(n, (ast.With, ast.AsyncWith)):
+            held = False
             for it in n.items:
                 r = role(it.context_expr)
-                if r is not None: out.add("with@" + r)
+                if r is not None: emit("with@" + r); held = True
+                visit(it.context_expr)
+            was = lk[0]; lk[0] = was or held                         # the body runs while the lock / context is held
+            for st_ in n.body: visit(st_)
+            lk[0] = was
+            return
         elif isinstance(n, ast.Compare):
             for o, c in zip(n.ops, n.comparators):
                 if isinstance(o, (ast.In, ast.NotIn)):
                     r = role(c)
-                    if r is not None: out.add("contains@" + r)
-        elif isinstance(n, (ast.Yield, ast.YieldFrom)): out.add("yield")
-        elif isinstance(n, ast.Raise): out.add("raise")
-        elif isinstance(n, ast.Assert): out.add("assert")
+                    if r is not None: emit("contains@" + r)
+        elif isinstance(n, (ast.Yield, ast.YieldFrom)): emit("yield")
+        elif isinstance(n, ast.Raise): emit("raise")
+        elif isinstance(n, ast.Assert): emit("assert")
+        elif isinstance(n, ast.Subscript) and isinstance(n.ctx, (ast.Store, ast.Del)):
+            r = role(n.value)
+            if r is not None: emit(("setitem@" if isinstance(n.ctx, ast.Store) else "delitem@") + r)
         elif isinstance(n, ast.Call):
             f = n.func
             if isinstance(f, ast.Attribute) and _root(f) not in NOISE: named(f.attr, f, n)
@@ -305,7 +322,7 @@ def _summarise(w, fn, env, out, seen, depth):
             return
         elif isinstance(n, ast.Attribute):
             if isinstance(n.ctx, ast.Store):
-                if n.attr in w.read: out.add("write@" + n.attr)
+                if n.attr in w.read: emit("write@" + n.attr)
             elif call_of is None and _root(n) not in NOISE:
                 named(n.attr, n, None)                               # a bound method picked without calling it (yet)
         for ch in ast.iter_child_nodes(n):
@@ -315,18 +332,53 @@ def _summarise(w, fn, env, out, seen, depth):
         visit(st)
 
 
+# the shared objects of the hand-off protocol (the roles the model's actions operate on)
+PROTOCOL_ROLES = {"_ready", "_calls", "_event", "_incoming", "_pinger", "_lock", "inlock", "outlock", "_callLaterTask", "syncer",
+                  "_locked", "_waiting"}
+
+
+def _qualnames(tree):
+    out = {}
+    def walk(node, pre):
+        for ch in ast.iter_child_nodes(node):
+            if isinstance(ch, (ast.FunctionDef, ast.AsyncFunctionDef, ast.ClassDef)):
+                q = pre + ch.name
+                if not isinstance(ch, ast.ClassDef): out[id(ch)] = q
+                walk(ch, q + ".")
+            else:
+                walk(ch, pre)
+    walk(tree, "")
+    return out
+
+
 def ops(repo):
-    """-> [(key, sorted set of "op@role")] for the entry points"""
+    """-> [(key, sorted set of elements)] for the entry points, plus the row "<unlisted>": every function of the three files
+    that is NOT reached from an entry point and whose own body operates on one of the protocol's shared objects — a new way
+    into the protocol (a new method touching the ready queue, ...) shows up there"""
     w = _World(repo)
-    res = []
+    res, reached = [], set()
     for rel, qual in FUNCTIONS:
         tree = w.trees.get(rel)
         fn = _find(tree, qual) if tree is not None else None
         if fn is None:
             res.append((key(rel, qual), ["<function not found>"])); continue
         out = set()
-        _summarise(w, fn, {}, out, set(), 0)
+        _summarise(w, fn, {}, out, set(), 0, False, reached)
         res.append((key(rel, qual), sorted(out)))
+    unlisted = []
+    for rel in FILES:
+        tree = w.trees.get(rel)
+        if tree is None: continue
+        qn = _qualnames(tree)
+        for n in ast.walk(tree):
+            if isinstance(n, (ast.FunctionDef, ast.AsyncFunctionDef)) and id(n) not in reached:
+                own = set()
+                w2 = _World.__new__(_World); w2.trees, w2.classes, w2.read = w.trees, w.classes, w.read
+                w2.defs = {}                                         # own body only: follow nothing
+                _summarise(w2, n, {}, own, set(), 0)
+                hit = sorted(e for e in own if "@" in e and e.split("@", 1)[1].replace("[locked]", "") in PROTOCOL_ROLES)
+                if hit: unlisted.append("%s.%s: %s" % (os.path.basename(rel)[:-3], qn.get(id(n), n.name), " ".join(hit)))
+    res.append(("<unlisted>", sorted(unlisted)))
     return res
 
 
